@@ -56,11 +56,11 @@ def lt_inf(x, b):
 
 
 def servable(inst, j, D, T) -> bool:
-    """python mirror of `Rl4co.Mtvrp.servable` (strict deadlines, as the mask uses)"""
+    """python mirror of `Rl4co.Mtvrp.servable` (deadlines may be met with equality)"""
     op = inst["open"]
-    ok_c = lt_inf(T[0][j], inst["late"][j])
+    ok_c = le_inf(T[0][j], inst["late"][j])
     ret = 0 if op else max(T[0][j], inst["early"][j]) + inst["service"][j] + T[j][0]
-    ok_d = lt_inf(ret, inst["late"][0])
+    ok_d = le_inf(ret, inst["late"][0])
     cap = inst["C"] * inst["capmul"]
     ok_dem = (0 < inst["dL"][j] <= cap and inst["dB"][j] == 0) or (0 < inst["dB"][j] <= cap and inst["dL"][j] == 0)
     ok_l = le_inf(D[0][j] + (0 if op else D[j][0]), inst["limit"])
@@ -147,26 +147,27 @@ class MtvrpAdapter(envcorr.Adapter):
                 if kind == "boundary" and j >= 2 and rng.random() < 0.7:
                     k = rng.randrange(1, j)  # deadline = exact arrival when coming from customer k
                     arr = max(T[0][k], early[k]) + service[k] + T[k][j]
-                    if arr > direct and arr > early[j]:
+                    if arr >= direct and arr > early[j]:
                         lt = arr
                 if lt is None:
-                    lt = max(early[j], direct) + rng.randint(1, 2500)
+                    slack = rng.choice([0, 0, rng.randint(1, 2500)]) if kind == "boundary" else rng.randint(0, 2500)
+                    lt = max(early[j] + 1, direct + slack)  # window start < end; direct arrival == deadline allowed
                 late[j] = lt
             need0 = max([0] + [max(T[0][j], early[j]) + service[j] + T[j][0] for j in range(1, n + 1)])
             l0 = None
             if kind == "boundary" and n >= 2 and rng.random() < 0.7:
                 a, b = rng.sample(range(1, n + 1), 2)  # depot deadline = exact return time of route [a, b]
                 t, _ = route_clock({"early": early, "service": service}, T, [a, b])
-                if t + T[b][0] > need0:
+                if t + T[b][0] >= max(need0, 1):
                     l0 = t + T[b][0]
             if l0 is None:
                 if O and rng.random() < 0.5:
                     # open routes: the mask does not look at the way back; keep the checker's own static
-                    # assumption (early + D_j0 + service <= late_0, D in time units at speed 1) but nothing more
-                    stat = max([1] + [early[j] + 2 * D[j][0] + service[j] for j in range(1, n + 1)])
+                    # assumption (early + d_j0 / speed + service <= late_0) but nothing more
+                    stat = max([1] + [early[j] + T[j][0] + service[j] for j in range(1, n + 1)])
                     l0 = max(1, stat + rng.choice([0, 1, 50, -1]))
                 else:
-                    l0 = need0 + 1 + rng.choice([0, 1, 100, 3000])
+                    l0 = max(1, need0 + rng.choice([0, 0, 1, 100, 3000]))
             late[0] = l0
             inst["early"], inst["late"], inst["service"] = early, late, service
         else:
@@ -476,22 +477,24 @@ def run_c02(ctx):
 
 def _replay_idle_witness(ctx, ad):
     """`Rl4co.Mtvrp.idleInst`: one customer whose direct arrival time equals its deadline.  Servable by the problem
-    statement (`[1, 0]` is Spec-feasible) but never offered: the real env idles at the depot, never done."""
+    statement; must be offered and the episode `[1, 0]` must finish (before upstream 6a508fb the customer was never
+    offered and the env idled at the depot: regression guard)."""
     inst = {"kind": "witness", "n": 1, "pts": [(0, 0), (128, 0)], "open": False, "speed_exp": 0, "C": 4, "capmul": 1,
             "dL": [0, 1], "dB": [0, 0], "limit": None, "early": [0, 0], "late": [2048, 256], "service": [0, 0]}
     env = ad.make_env()
     td = env.reset(ad.to_td([inst]))
-    steps, masks = 0, []
+    steps, masks, acts = 0, [], []
     while steps < 2 * inst["n"] + 1 + 5 and not bool(td["done"].reshape(-1)[0]):
         m = rl.mask_str(td["action_mask"][0])
         masks.append(m)
         feas = [j for j, c in enumerate(m) if c == "1"]
         if not feas:
             break
-        td.set("action", torch.tensor([feas[-1]]))  # prefer a customer if one is offered
+        acts.append(feas[-1])  # prefer a customer if one is offered
+        td.set("action", torch.tensor([feas[-1]]))
         td = env.step(td)["next"]
         steps += 1
-    f = parse_fields(ctx.driver.ask(ad.line("episode", inst, [0] * steps)))
+    f = parse_fields(ctx.driver.ask(ad.line("episode", inst, acts)))
     ctx.case(("mtvrp", "idle-witness"))
     if f.get("masks", "").split(",")[:len(masks)] != masks:
         ctx.disagreement("mtvrp: idle witness: model and real masks differ", {"inst": inst, "real": masks, "model": f.get("masks")})
@@ -499,7 +502,7 @@ def _replay_idle_witness(ctx, ad):
     if not bool(td["done"].reshape(-1)[0]) and f2.get("feas") == "1":
         emit(ctx, "mtvrp:no-termination:deadline-equality",
              f"a solvable instance ([1, 0] is Spec-feasible: arrival == deadline) is not finished after {steps} > 2n+1 steps: "
-             "the customer is never offered (`arrival_time < late_tw`), the env idles at the depot",
+             "the customer is never offered, the env idles at the depot",
              {"inst": inst, "masks": masks})
 
 
@@ -561,7 +564,7 @@ def run_c05(ctx):
                             key = "mtvrp:mask-hides-feasible" + ("" if strict else ":deadline-equality")
                             emit(ctx, key,
                                           "a solution that is feasible by the Lean Spec is not offered by the real mask"
-                                          + ("" if strict else " (it meets a deadline with equality; the mask compares with `<`)"),
+                                          + ("" if strict else " (it meets a deadline with equality)"),
                                           {"inst": inst, "variant": variant_of(inst), "solution": c, "blocked_at_step": t,
                                            "mask": rl.mask_str(mask[r]), "equalities": equality_hits(inst, c)})
                             if f.get("adm") == "1":
@@ -598,8 +601,8 @@ def run_c05(ctx):
 def deadline_equality_witness():
     """minimal witness (= `Rl4co.Mtvrp.dlInst`, in time units of 2^-11): depot 0 — customer 1 at 128 — customer 2
     at 256 on a line, VRPTW, service 64 at customer 1; coming from customer 1 the vehicle reaches customer 2 at
-    256 + 64 + 256 = 576 = its deadline.  `[1, 2, 0]` is feasible (and accepted by the env's own checker) but
-    customer 2 is masked after customer 1."""
+    256 + 64 + 256 = 576 = its deadline.  `[1, 2, 0]` is feasible (and accepted by the env's own checker) and must be
+    offered by the mask step by step (before upstream 6a508fb customer 2 was masked after customer 1: regression guard)."""
     inst = {"kind": "witness", "n": 2, "pts": [(0, 0), (128, 0), (256, 0)], "open": False, "speed_exp": 0,
             "C": 4, "capmul": 1, "dL": [0, 1, 1], "dB": [0, 0, 0], "limit": None,
             "early": [0, 0, 0], "late": [2048, 1024, 576], "service": [0, 64, 0]}
@@ -622,7 +625,7 @@ def _replay_deadline_equality(ctx, ad, env):
     if f.get("feas") == "1" and blocked is not None:
         emit(ctx, "mtvrp:mask-hides-feasible:deadline-equality",
                       "witness replay: arrival == deadline is feasible by the Spec"
-                      + (" and accepted by the env's own checker" if acc else "") + " but masked (`arrival_time < late_tw`)",
+                      + (" and accepted by the env's own checker" if acc else "") + " but masked",
                       {"inst": inst, "solution": sol, "blocked_at_step": blocked, "real_checker_accepts": acc})
     if (f.get("adm") == "1") != (blocked is None):
         ctx.disagreement("mtvrp: witness replay: model and real mask differ", {"inst": inst, "solution": sol})
@@ -631,18 +634,31 @@ def _replay_deadline_equality(ctx, ad, env):
 # ------------------------------------------------------------------------------------------------
 # C06: checker vs definition
 # ------------------------------------------------------------------------------------------------
-def classify_reject(inst, f) -> str:
-    """the checker raises for a Spec-feasible solution: which pass of the checker model fired"""
-    if all(f.get(k) == "1" for k in ("cSort", "cLen", "cCapL", "cCapB")) and (f.get("cStatic") == "0" or f.get("cTime") == "0"):
-        if inst["speed_exp"] != 0:
-            return ":checker-ignores-speed"
-        if inst["open"]:
+def _ask_check(ctx, ad, inst, sol):
+    return parse_fields(ctx.driver.ask(ad.line("check", inst, list(sol))))
+
+
+def classify_reject(ctx, ad, inst, sol, f) -> str:
+    """the checker raises for a Spec-feasible solution.  Known class `open-route-depot-deadline`: the instance has open
+    routes and the ONLY thing the checker objects to is the depot deadline (static assert / arrival of a leg into the
+    depot) — established by re-judging the same solution with the depot deadline removed: then the checker model must
+    accept.  Anything else keeps the plain key and is reported fresh."""
+    if inst["open"] and inst["late"][0] is not None and f.get("cSort") == "1":
+        f2 = _ask_check(ctx, ad, dict(inst, late=[None] + list(inst["late"][1:])), sol)
+        if f2.get("check") == "1" and f2.get("feas") == "1":
             return ":open-route-depot-deadline"
+    if inst["speed_exp"] != 0 and all(f.get(k) == "1" for k in ("cSort", "cLen", "cCapL", "cCapB")):
+        return ":checker-ignores-speed"  # fixed upstream (afacad0): a reappearance is reported as a fresh violation
     return ""
 
 
 def classify_accept(ctx, ad, inst, sol, f) -> str:
-    """the checker accepts a Spec-infeasible solution: which constraint of the Spec is violated"""
+    """the checker accepts a Spec-infeasible solution.  Known classes, each established by re-judging:
+    `backhaul-order-unchecked`: the linehaul-before-backhaul order is the ONLY violated constraint;
+    `final-return-leg-unchecked`: closed routes, the list does not end at the depot, every route before the last one is
+    fine, and the last route violates nothing but the limit / depot deadline on its way back (with that leg not driven —
+    open-route variant of the instance — the solution is feasible up to the order constraint), and the checker model does
+    raise once the final depot visit is appended.  Anything else keeps the plain key and is reported fresh."""
     bad = {k for k in ("once", "load", "order", "dist", "time") if f.get(k) == "0"}
     if not bad or bad & {"once", "load"}:
         return ""
@@ -650,12 +666,17 @@ def classify_accept(ctx, ad, inst, sol, f) -> str:
     if not rest:
         return ":backhaul-order-unchecked"
     if not inst["open"] and sol and sol[-1] != 0:
-        # would the checker have raised, had the way back of the last route been replayed?
-        f2 = parse_fields(ctx.driver.ask(ad.line("check", inst, list(sol) + [0])))
-        if f2.get("check") == "0" and f2.get("cSort") == "1":
-            return ":final-return-leg-unchecked"
+        zs = [k for k, a in enumerate(sol) if a == 0]
+        prefix = list(sol[: zs[-1] + 1]) if zs else []
+        fp = _ask_check(ctx, ad, inst, prefix) if prefix else {"dist": "1", "time": "1"}
+        fo = _ask_check(ctx, ad, dict(inst, open=True), sol)
+        fz = _ask_check(ctx, ad, inst, list(sol) + [0])
+        if (fp.get("dist") == "1" and fp.get("time") == "1" and fo.get("dist") == "1" and fo.get("time") == "1"
+                and fz.get("check") == "0" and fz.get("cSort") == "1"):
+            # (if the order constraint is violated as well, the acceptance is the sum of the two known defects)
+            return ":final-return-leg-unchecked" + ("+backhaul-order-unchecked" if "order" in bad else "")
     if rest == {"time"} and inst["speed_exp"] != 0:
-        return ":checker-ignores-speed"
+        return ":checker-ignores-speed"  # fixed upstream (afacad0): fresh if it reappears
     return ""
 
 
@@ -669,8 +690,8 @@ def c06_witnesses():
         return d
 
     return [
-        ("speed-2-feasible-rejected", base(1, [(0, 0), (512, 0)], speed_exp=1, late=[4096, 600]), [1, 0]),
-        ("speed-half-infeasible-accepted",
+        ("speed-2-feasible", base(1, [(0, 0), (512, 0)], speed_exp=1, late=[4096, 600]), [1, 0]),
+        ("speed-half-infeasible",
          base(2, [(0, 0), (128, 0), (256, 0)], speed_exp=-1, late=[16384, 4096, 1100], service=[0, 128, 0]), [1, 2, 0]),
         ("open-route-depot-deadline", base(1, [(0, 0), (256, 0)], open=True, late=[600, 4096]), [1, 0]),
         ("backhaul-before-linehaul", base(2, [(0, 0), (128, 0), (256, 0)], dL=[0, 0, 1], dB=[0, 1, 0]), [1, 2, 0]),
@@ -734,7 +755,7 @@ def tightened(inst, sol, rng):
         cands = []
         for rt in routes:
             t, arr = route_clock(inst, T, rt)
-            cands += [(j, at) for j, at in zip(rt, arr) if at - 1 > max(T[0][j], inst["early"][j])]
+            cands += [(j, at) for j, at in zip(rt, arr) if at - 1 >= T[0][j] and at - 1 > inst["early"][j]]
         if cands:
             j, at = rng.choice(cands)
             late = list(inst["late"])
@@ -750,9 +771,9 @@ def tightened(inst, sol, rng):
                 rets.append(t + T[rt[-1]][0])
             need0 = max(max(T[0][j], inst["early"][j]) + inst["service"][j] + T[j][0] for j in range(1, inst["n"] + 1))
             m = max(rets)
-            if m - 1 > need0:
+            if m - 1 >= max(need0, 1):
                 out.append(("depot-deadline-one-below-return", dict(inst, late=[m - 1] + list(inst["late"][1:]))))
-            if m > need0:
+            if m >= max(need0, 1):
                 out.append(("depot-deadline-equals-return", dict(inst, late=[m] + list(inst["late"][1:]))))
     return [(lab, i2) for lab, i2 in out if is_wf(i2)]
 
@@ -805,7 +826,7 @@ def _judge_cases(ctx, ad, env, cases):
             ctx.disagreement("mtvrp: checker model differs from real checker",
                              {"inst": inst, "label": lab, "actions": sol, "real_accepts": acc, "model": f})
         if f.get("feas") == "1" and not acc:
-            emit(ctx, "mtvrp:checker-rejects-feasible" + classify_reject(inst, f),
+            emit(ctx, "mtvrp:checker-rejects-feasible" + classify_reject(ctx, ad, inst, sol, f),
                           "the real checker raises for a solution that is feasible by the Lean Spec",
                           {"inst": inst, "variant": variant_of(inst), "label": lab, "actions": sol, "verdicts": f})
         if f.get("feas") == "0" and acc:
@@ -841,7 +862,7 @@ def _static_assert_cases(ctx, ad, env):
         variants.append(("zero-limit", dict(inst, limit=0)))
         e = list(inst["early"]); e[0] = 8
         variants.append(("depot-window-start>0", dict(inst, early=e)))
-        l = list(inst["late"]); l[0] = max(inst["early"][k] + 2 * Dg(inst)[k][0] + inst["service"][k] for k in range(1, n + 1)) - 1
+        l = list(inst["late"]); l[0] = max(inst["early"][k] + T_tu(inst)[k][0] + inst["service"][k] for k in range(1, n + 1)) - 1
         if l[0] > 0:
             variants.append(("depot-end-one-below-static-need", dict(inst, late=l)))
         lines = [ad.line("check", i2, sol) for _, i2 in variants]
@@ -856,7 +877,8 @@ def _static_assert_cases(ctx, ad, env):
 
 
 def _batch_capacity_cases(ctx, ad, env):
-    """batches whose rows have different vehicle capacities: the batched checker vs row-wise verdicts"""
+    """batches whose rows have different vehicle capacities: the batched checker must agree with the row-wise verdicts
+    (regression guard for upstream 0be4e8c: `_check_c1` used to compare every load with every row's capacity)"""
     total = ctx.budget(6, 60)
     for g in range(total):
         n = ctx.rng.choice([2, 3, 5])
@@ -885,15 +907,14 @@ def _batch_capacity_cases(ctx, ad, env):
                              {"insts": insts, "actions": ep.actions, "real": acc_batch, "model": f})
         if f.get("solo") != "".join("1" if a else "0" for a in acc_rows):
             ctx.disagreement("mtvrp: row-wise checker model differs", {"insts": insts, "actions": ep.actions, "real": acc_rows, "model": f})
-        if len(set(caps)) == 1 and acc_batch != all(acc_rows):
-            ctx.violation("mtvrp:checker-batch-differs-equal-capacities",
-                          "equal capacities, yet the batched checker differs from the row-wise verdicts",
-                          {"insts": insts, "actions": ep.actions, "batch": acc_batch, "rows": acc_rows})
         if all(acc_rows) and f.get("feas") == "1" * B and not acc_batch:
             emit(ctx, "mtvrp:checker-cross-row-capacity",
-                          "every row is feasible and accepted on its own, but the batched checker raises: `_check_c1` compares "
-                          "the load of one row with the capacity of every other row ([B] vs [B,1] broadcast)",
-                          {"insts": insts, "capacities": caps, "actions": ep.actions})
+                 "every row is feasible and accepted on its own, but the batched checker raises (cross-row capacity comparison)",
+                 {"insts": insts, "capacities": caps, "actions": ep.actions})
+        elif acc_batch != all(acc_rows):
+            ctx.violation("mtvrp:checker-batch-differs-from-rows",
+                          "the batched checker differs from the conjunction of the row-wise verdicts",
+                          {"insts": insts, "actions": ep.actions, "batch": acc_batch, "rows": acc_rows})
 
 
 MODEL_NOTE = ("MTVRPEnv modelled per instance over integer ticks (Rl4co/Env/Mtvrp.lean), one model for all 16 variants "
@@ -917,59 +938,45 @@ def _mods(rel, mod):
 NO_THM = "no theorem yet: correspondence + spec oracle only"
 
 register(Unit("C01", "mtvrp", run_c01, drivers=["drv_mtvrp"],
-              lean_modules=_mods("Rl4co/Props/C01/Mtvrp.lean", "Rl4co.Props.C01.Mtvrp"),
-              theorems=_thms("Rl4co/Props/C01/Mtvrp.lean", [
-                  Theorem("Rl4co.Mtvrp.feasible_of_run", "proved",
-                          "every mask-confined finished MTVRP episode is Spec-feasible, for every feature valuation (all 16 variants)"),
-                  Theorem("Rl4co.Mtvrp.feasibleStrict_of_run", "proved",
-                          "… and even meets every deadline with slack (what the strict mask comparisons give)")]),
-              assumptions=[MODEL_NOTE] + ([] if _exists("Rl4co/Props/C01/Mtvrp.lean") else [NO_THM])))
+              lean_modules=["Rl4co.Props.C01.Mtvrp"],
+              theorems=[Theorem("Rl4co.Mtvrp.feasible_of_run", "proved",
+                                "every mask-confined finished MTVRP episode is Spec-feasible, for every feature valuation (all 16 variants)")],
+              assumptions=[MODEL_NOTE]))
 register(Unit("C02", "mtvrp", run_c02, drivers=["drv_mtvrp"],
-              lean_modules=_mods("Rl4co/Props/C02/Mtvrp.lean", "Rl4co.Props.C02.Mtvrp"),
-              theorems=_thms("Rl4co/Props/C02/Mtvrp.lean", [
-                  Theorem("Rl4co.Mtvrp.mask_nonempty", "proved", "every state offers an action"),
-                  Theorem("Rl4co.Mtvrp.done_stable", "proved", "done is absorbing"),
-                  Theorem("Rl4co.Mtvrp.steps_le", "proved", "an unfinished mask-confined run has at most 2n+1 steps (wf instance, strict servability)"),
-                  Theorem("Rl4co.Mtvrp.steps_le_counterexample", "proved",
-                          "¬ steps_le with `≤`-servability: a customer with arrival == deadline is never offered, the env idles forever")]),
-              assumptions=[MODEL_NOTE] + ([] if _exists("Rl4co/Props/C02/Mtvrp.lean") else [NO_THM])))
+              lean_modules=["Rl4co.Props.C02.Mtvrp"],
+              theorems=[Theorem("Rl4co.Mtvrp.mask_nonempty", "proved", "every state offers an action"),
+                        Theorem("Rl4co.Mtvrp.done_stable", "proved", "done is absorbing"),
+                        Theorem("Rl4co.Mtvrp.steps_le", "proved",
+                                "an unfinished mask-confined run has at most 2n+1 steps (wf instance: every customer servable on its own, "
+                                "deadlines/capacity/limit may be met with equality)"),
+                        Theorem("Rl4co.Mtvrp.progress", "proved", "an unfinished reachable state has an admitted action and stays inside the bound")],
+              assumptions=[MODEL_NOTE]))
 register(Unit("C03", "mtvrp", run_c03, drivers=["drv_mtvrp"],
-              lean_modules=_mods("Rl4co/Props/C03/Mtvrp.lean", "Rl4co.Props.C03.Mtvrp"),
-              theorems=_thms("Rl4co/Props/C03/Mtvrp.lean", [
-                  Theorem("Rl4co.Mtvrp.reward_eq_objective", "proved",
-                          "reward = −(sum of route lengths, return legs not charged for open routes) for every action list")]),
-              assumptions=[MODEL_NOTE] + ([] if _exists("Rl4co/Props/C03/Mtvrp.lean") else [NO_THM])))
+              lean_modules=["Rl4co.Props.C03.Mtvrp"],
+              theorems=[Theorem("Rl4co.Mtvrp.reward_eq_objective", "proved",
+                                "reward = −(sum of route lengths, return legs not charged for open routes) for every action list")],
+              assumptions=[MODEL_NOTE]))
 register(Unit("C04", "mtvrp", run_c04, drivers=["drv_mtvrp"],
-              lean_modules=_mods("Rl4co/Props/C04/Mtvrp.lean", "Rl4co.Props.C04.Mtvrp"),
-              theorems=_thms("Rl4co/Props/C04/Mtvrp.lean", [
-                  Theorem("Rl4co.Mtvrp.pad_noop", "proved",
-                          "a depot padding step after done changes neither done, mask nor reward")]),
-              assumptions=[MODEL_NOTE, "the batched code is compared row-wise against the per-instance model"]
-              + ([] if _exists("Rl4co/Props/C04/Mtvrp.lean") else [NO_THM])))
+              lean_modules=["Rl4co.Props.C04.Mtvrp"],
+              theorems=[Theorem("Rl4co.Mtvrp.pad_noop", "proved",
+                                "a depot padding step after done changes neither done, mask nor reward")],
+              assumptions=[MODEL_NOTE, "the batched code is compared row-wise against the per-instance model"]))
 register(Unit("C05", "mtvrp", run_c05, drivers=["drv_mtvrp"],
-              lean_modules=_mods("Rl4co/Props/C05/Mtvrp.lean", "Rl4co.Props.C05.Mtvrp"),
-              theorems=_thms("Rl4co/Props/C05/Mtvrp.lean", [
-                  Theorem("Rl4co.Mtvrp.run_of_feasible_partial", "partial",
-                          "every canonical solution feasible WITH SLACK on the deadlines is a mask-confined finished run "
-                          "(wf + metric instance; equality on capacity and distance limit admitted; all feature valuations)"),
-                  Theorem("Rl4co.Mtvrp.run_of_feasible_counterexample", "proved",
-                          "¬ run_of_feasible_statement: arrival == deadline is feasible but masked (`<`)")]),
-              assumptions=[MODEL_NOTE, "FINDING: full completeness is false (strict deadline comparisons in the mask); "
-                           "proved: counterexample + partial theorem; the unit replays the witness on the real code"]))
+              lean_modules=["Rl4co.Props.C05.Mtvrp"],
+              theorems=[Theorem("Rl4co.Mtvrp.run_of_feasible", "proved",
+                                "every canonical Spec-feasible solution (equality allowed on deadlines, capacities and the distance limit) is a "
+                                "mask-confined finished run (wf + metric instance; all feature valuations)")],
+              assumptions=[MODEL_NOTE, "Canonical = no depot→depot move and at least one depot visit (the documented pruning)"]))
 register(Unit("C06", "mtvrp", run_c06, drivers=["drv_mtvrp"],
-              lean_modules=_mods("Rl4co/Props/C06/Mtvrp.lean", "Rl4co.Props.C06.Mtvrp"),
-              theorems=_thms("Rl4co/Props/C06/Mtvrp.lean", [
-                  Theorem("Rl4co.Mtvrp.check_complete_partial", "partial",
-                          "Spec-feasible ⇒ checker accepts, provided speed = 1 and (open routes) the depot stays open after the deadlines"),
-                  Theorem("Rl4co.Mtvrp.check_sound_partial", "partial",
-                          "checker accepts ⇒ Spec-feasible, provided speed = 1, routes are linehaul-before-backhaul, and closed-route lists end at the depot"),
-                  Theorem("Rl4co.Mtvrp.check_complete_counterexample", "proved", "¬ completeness: the checker's clock ignores speed"),
-                  Theorem("Rl4co.Mtvrp.check_complete_counterexample_open", "proved", "¬ completeness: depot deadline applied to open routes"),
-                  Theorem("Rl4co.Mtvrp.check_sound_counterexample", "proved", "¬ soundness: backhaul-before-linehaul accepted"),
-                  Theorem("Rl4co.Mtvrp.check_sound_counterexample_final_leg", "proved", "¬ soundness: last route's way back not tested without a final depot"),
-                  Theorem("Rl4co.Mtvrp.check_sound_counterexample_speed", "proved", "¬ soundness: the checker's clock ignores speed"),
-                  Theorem("Rl4co.Mtvrp.checkBatch_eq_all_of_equal_caps", "proved", "equal capacities ⇒ batched checker = conjunction of row-wise checkers"),
-                  Theorem("Rl4co.Mtvrp.checkBatch_rowwise_counterexample", "proved", "unequal capacities: `_check_c1` compares loads with other rows' capacities")]),
-              assumptions=[MODEL_NOTE, "FINDINGS: the checker is neither complete nor sound w.r.t. the Spec (speed ignored, open-route depot "
-                           "deadline, backhaul order unchecked, final return leg unchecked, cross-row capacity broadcast); each has a "
+              lean_modules=["Rl4co.Props.C06.Mtvrp"],
+              theorems=[Theorem("Rl4co.Mtvrp.check_complete_partial", "partial",
+                                "Spec-feasible ⇒ checker accepts (any speed), provided that for open routes the depot stays open after the deadlines"),
+                        Theorem("Rl4co.Mtvrp.check_sound_partial", "partial",
+                                "checker accepts ⇒ Spec-feasible (any speed), provided routes are linehaul-before-backhaul and closed-route lists end at the depot"),
+                        Theorem("Rl4co.Mtvrp.check_complete_counterexample_open", "proved", "¬ completeness: depot deadline applied to open routes"),
+                        Theorem("Rl4co.Mtvrp.check_sound_counterexample", "proved", "¬ soundness: backhaul-before-linehaul accepted"),
+                        Theorem("Rl4co.Mtvrp.check_sound_counterexample_final_leg", "proved", "¬ soundness: last route's way back not tested without a final depot"),
+                        Theorem("Rl4co.Mtvrp.checkBatch_eq_all", "proved", "batched checker = conjunction of the row-wise checkers, for any capacities")],
+              assumptions=[MODEL_NOTE, "FINDINGS (not fixed upstream): the checker applies the depot deadline to open routes, never tests the "
+                           "backhaul order, and does not test the last route's way back when the list does not end at the depot; each has a "
                            "Lean counterexample, a partial theorem and a witness replayed on the real code"]))
